@@ -525,6 +525,7 @@ func main() {
 	cf, _ := os.Create(out)
 	cw := bufio.NewWriter(cf)
 	evals, nontrivial, loadFailed, reloadDone, rebuildDone, netFiles, histories, interleaves, boundaries, sharedWrites, coldFiles, extremeEnums := 0, 0, 0, 0, 0, 0, 0, 0, 0, 0, 0, 0
+	foreignActs := 0
 	scratch := os.Getenv("VERIF_SCRATCH")
 	if scratch == "" {
 		scratch = filepath.Dir(out)
@@ -671,6 +672,15 @@ func main() {
 				fail(s, size, i, d)
 			}
 		}
+		// K: unrelated imports / loads / exports between two exports of the unchanged model
+		if o0.err == "" {
+			s, d, cnt := checkForeignActivity(b0.Net, nil, &rng{s: seed ^ uint64(i*389+17)}, kinds)
+			evals += cnt
+			foreignActs += cnt
+			if s != "" {
+				fail(s, size, i, d)
+			}
+		}
 		// E: histories with reads interleaved
 		hr := checkHistory(sp, seed^uint64(i*977+3), idTies)
 		evals += hr.compared
@@ -742,8 +752,8 @@ func main() {
 	sf, _ := os.Create(out + ".summary")
 	fmt.Fprintf(sf, "muttriples %d\n", mutTriples)
 	fmt.Fprintf(sf, "written %d\n", casesWritten)
-	fmt.Fprintf(sf, "cases %d\nevaluations %d\nnontrivial %d\ndistinct %d\nloadfailed %d\nreloads %d\nrebuilds %d\ngomaxprocs %d\nreps %d\nnetworkfiles %d\nhistories %d\ninterleaves %d\nboundaries %d\nsharedwrites %d\ncoldfiles %d\nextremeenums %d\n",
-		n, evals, nontrivial, len(distinct), loadFailed, reloadDone, rebuildDone, envProcs, reps, netFiles, histories, interleaves, boundaries, sharedWrites, coldFiles, extremeEnums)
+	fmt.Fprintf(sf, "cases %d\nevaluations %d\nnontrivial %d\ndistinct %d\nloadfailed %d\nreloads %d\nrebuilds %d\ngomaxprocs %d\nreps %d\nnetworkfiles %d\nhistories %d\ninterleaves %d\nboundaries %d\nsharedwrites %d\ncoldfiles %d\nextremeenums %d\nforeignacts %d\n",
+		n, evals, nontrivial, len(distinct), loadFailed, reloadDone, rebuildDone, envProcs, reps, netFiles, histories, interleaves, boundaries, sharedWrites, coldFiles, extremeEnums, foreignActs)
 	keys := make([]string, 0, len(kinds))
 	for k := range kinds {
 		keys = append(keys, k)
